@@ -109,7 +109,7 @@ Definition model (p : pass) (f : func) : option (func * fl) :=
   | PLvn => Some (lvn f, fl0)
   end.
 
-(* [status; wf; unproved-path flag; escape flag; sanity runs reproduced; sanity runs NOT reproduced;
+(* [status; wf; Passes.dead_final_operands (ccp only); escape flag; sanity runs reproduced; sanity runs NOT reproduced;
     sanity runs on which the invariant between rounds (mode Add) fails]
    status 0: model output = real output; 1: they differ; 2: the model gives no output *)
 Definition b2n (b : bool) : N := if b then 1%N else 0%N.
